@@ -26,6 +26,10 @@ def reset_counts():
 def _tick(kind):
     n = COUNTS[kind]
     COUNTS[kind] = n + 1
+    if os.environ.get("VH_FAULT_LOG") == "1":
+        from pymarkdown.general import verif_probe
+
+        verif_probe.emit("vh_tick", kind=kind, n=n)
     spec = os.environ.get("VH_FAULT", "")
     if spec:
         want_kind, _, want_n = spec.partition(":")
